@@ -443,11 +443,25 @@ func genRandom(t *rapid.T) Case {
 	var toks []tok
 	toks = append(toks, tok{Lit: "/" + rapid.SampledFrom(litTail).Draw(t, "l0")})
 	np := rapid.IntRange(1, 5).Draw(t, "np")
+	// skeleton mode: parameters separated by bare slashes (greedy parameters are then delimited by counting slashes, and a
+	// trailing optional parameter that stays empty removes one of them from the path)
+	skeleton := rapid.IntRange(0, 3).Draw(t, "skeleton") == 0
+	if skeleton {
+		toks[0].Lit = "/" + rapid.SampledFrom([]string{"", "", "files/", "a/"}).Draw(t, "l0s")
+	}
 	for i := 0; i < np; i++ {
-		toks = append(toks, tok{Kind: rapid.SampledFrom([]byte{':', ':', '?', '*', '+'}).Draw(t, "k"), Name: fmt.Sprintf("p%d", i)})
+		kinds := []byte{':', ':', '?', '*', '+'}
+		if skeleton && i == np-1 {
+			kinds = []byte{'?', '?', ':', '*'}
+		}
+		toks = append(toks, tok{Kind: rapid.SampledFrom(kinds).Draw(t, "k"), Name: fmt.Sprintf("p%d", i)})
 		if i < np-1 || rapid.Bool().Draw(t, "tail") {
 			d := rapid.SampledFrom([]string{"/", "-", "."}).Draw(t, "d")
-			toks = append(toks, tok{Lit: d + rapid.SampledFrom(litTail).Draw(t, "lt")})
+			lt := rapid.SampledFrom(litTail).Draw(t, "lt")
+			if skeleton {
+				d, lt = "/", rapid.SampledFrom([]string{"", "", "", "x/", "meta/"}).Draw(t, "lts")
+			}
+			toks = append(toks, tok{Lit: d + lt})
 		}
 	}
 	var pat strings.Builder
